@@ -15,3 +15,11 @@ M("ad-grad-returns-scalar", "benchmarks.py", "    return 2 * np.asarray(x)\n", "
 Q("ad-rosenbrock-rewritten", "benchmarks.py", "    g[1:] += 100.0 * (2.0 * x[1:] - 2.0 * x[:-1] ** 2.0)\n", "    g[1:] += 200.0 * (x[1:] - x[:-1] * x[:-1])\n", ["AD"])
 Q("ad-styblinski-rewritten", "benchmarks.py", "    return 2.0 * np.power(x, 3) - 16.0 * x + 2.5\n", "    return 0.5 * (4.0 * x ** 3 - 32.0 * x + 5.0)\n", ["AD"])
 Q("ad-ackley-mean", "benchmarks.py", "        np.cos(2.0 * np.pi * x).sum() / ndim\n", "        1.0 / ndim * np.cos(2.0 * np.pi * x).sum()\n", ["AD"])
+M("ad-guarded-division", "benchmarks.py", "        x / 2000.0 + np.sin(x / den) * np.prod(np.cos(x / den)) / np.cos(x / den) / den\n",
+  "        x / 2000.0 + np.sin(x / den) * np.prod(np.cos(x / den)) / np.where(np.abs(np.cos(x / den)) < 1e-8, 1e-8, np.cos(x / den)) / den\n",
+  ["AD"], note="seeded change C19-a: a 'division guard' whose guarded branch is not the derivative")
+M("ad-module-state", "benchmarks.py", "def quartic(x: NDArrayFloat) -> float:", "_w = np.arange(1, 2)\n\n\ndef _weights(n):\n    global _w\n    if _w.size < n:\n        _w = np.arange(1, n + 1)\n    return _w\n\n\ndef quartic(x: NDArrayFloat) -> float:",
+  ["AD"], also=[("benchmarks.py", "    return (np.arange(1, ndim + 1) * np.power(x, 4)).sum()\n", "    return (_weights(ndim) * np.power(x, 4)).sum()\n")],
+  note="seeded change C19-b: value depends on module-level state")
+Q("ad-pure-helper", "benchmarks.py", "def quartic(x: NDArrayFloat) -> float:", "def _weights(n):\n    return np.arange(1, n + 1)\n\n\ndef quartic(x: NDArrayFloat) -> float:",
+  ["AD"], also=[("benchmarks.py", "    return (np.arange(1, ndim + 1) * np.power(x, 4)).sum()\n", "    return (_weights(ndim) * np.power(x, 4)).sum()\n")])
